@@ -307,7 +307,8 @@ def main(argv):
             elif after != before:
                 ck.oracle_failures.append({'signature': 'evaluation-changed-the-event', 'input': inp, 'observed': 'before %r after %r' % (before, after)})
             else:
-                if PH_RE.search(text) and not any('[[' in v for vs in props.values() for v in vs):
+                # a placeholder OF THE TEMPLATE that is still there (literal brackets of the template may line up to something that looks like one)
+                if any(ph in text for ph in PH_RE.findall(tpl)) and not any('[[' in v for vs in props.values() for v in vs):
                     ck.oracle_failures.append({'signature': 'unresolved-placeholder', 'input': inp, 'observed': text[:300]})
                 want = spec_eval(tpl, {k: list(v) for k, v in ordered}, {k: dict(zip(range(len(v)), v)) for k, v in att_ordered})
                 if want is not None and want != text:
